@@ -131,6 +131,13 @@ void harness (void)
       if (o_ensure) VF_ASSERT (o_complete > 0 && o_complete < o_ensure, "the name is registered only after the connection carries it");
       VF_ASSERT ((ok != 0) == (complete_ok && setsender_ok && welcome_ok && ensure_ok), "Hello succeeds exactly when every step does");
       if (!ok) VF_ASSERT (err.name != 0, "failure carries an error");
+#ifdef VF_C14_HELLO
+      /* C14: "reports out-of-memory, leaves all previously observable state exactly as it was ... and succeeds when retried".  Once bus_connection_complete
+       * has succeeded the connection is active (named, counted); a later failing step (re-stamping, welcome message, registering the unique name) makes
+       * Hello fail without un-completing it, and a retried Hello is refused with "Already handled an Hello message" (F18). */
+      if (!ok) VF_FINDING (!complete_ok, "F18-hello-not-atomic-after-completion");
+      if (!ok && complete_ok) VF_WITNESS_OPT ("Hello failed after the connection was completed");
+#endif
       if (ok) VF_WITNESS ("Hello completed");
     }
 #endif
